@@ -80,7 +80,7 @@ def confirm(job, kind, msg, vals, replay_path):
         except subprocess.TimeoutExpired:
             return 'timeout', '', ''
     rc, out, err = runit([exe])
-    if kind.startswith('assert'):
+    if kind in ('assert', 'assert-band', 'assert-bandpath'):
         ok = ('ASSERT-FAIL ' + msg) in out
         return ok, 'native run %s the CHECK failure' % ('reproduces' if ok else 'does not reproduce')
     if kind == 'termination':
@@ -170,7 +170,8 @@ def main():
         for (kind, msg, where, model, dec) in R['violations']:
             site = where.split(' <- ')
             sitefn = next((x for x in site if 'harness' not in x and not x.startswith('[')), site[0] if site else '')
-            fp = ('assert' if kind.startswith('assert') else kind, msg if kind.startswith('assert') else msg.split(':')[0][:80], sitefn if not kind.startswith('assert') else '')
+            isck = kind in ('assert', 'assert-band', 'assert-bandpath')
+            fp = ('assert' if isck else kind, msg if isck else msg.split(':')[0][:80] + (msg[msg.find('('):][:90] if kind == 'assertion' else ''), sitefn if not isck else '')
             byfp.setdefault(fp, []).append((kind, msg, where, model))
         for fp, items in byfp.items():
             kind, msg, where, _ = items[0]
